@@ -130,9 +130,6 @@ def _has_invalid_pin_cite(
     if not (full_cite.groups.get("page") or "").isdigit():
         return False
 
-    # parse full cite page
-    page = int(full_cite.groups["page"])
-
     # parse short cite pin
     m = re.match(r"(?:at )?(\d+)", id_cite.metadata.pin_cite)
     if not m:
@@ -141,7 +138,14 @@ def _has_invalid_pin_cite(
         # cites like "Id. at *10", but successfully filter invalid pin cites
         # like "1 U.S. 1. ... Id. at ¶ 10".
         return True
-    pin_cite = int(m[1])
+
+    # parse full cite page and pin cite
+    try:
+        page = int(full_cite.groups["page"])
+        pin_cite = int(m[1])
+    except ValueError:
+        # digit runs beyond Python's int conversion limit: no plausible page
+        return True
 
     # check page range
     if pin_cite < page or pin_cite > page + MAX_OPINION_PAGE_COUNT:
